@@ -102,6 +102,9 @@ func driveXIBC(t *testing.T, in, out string, seed int64) {
 				line["res"], line["msg"] = resOf(r), clip(r.Log)
 				line["sig"] = "UpdateClient/" + str(st["signer"])
 				line["registered"] = w.Chains[on].App.XIBCKeeper.ClientKeeper.AuthRelayer(w.Chains[on].Ctx(), w.ID[str(st["counter"])], w.Chains[on].Accts[signerIdx(str(st["signer"]))].Acc.String())
+			case "Retoggle":
+				res, msg := w.Retoggle(on, str(st["counter"]))
+				line["res"], line["msg"], line["sig"] = res, clip(msg), "Retoggle"
 			case "Recv":
 				m := MsgSpec{On: on, Src: str(st["src"]), Dst: str(st["dst"]), Seq: uint64(num(st["seq"])), Alt: str(st["alt"]),
 					PH: int(num(st["ph"])), Proof: str(st["proof"]), Signer: signerIdx(str(st["signer"]))}
